@@ -4,6 +4,7 @@ import (
 	"bytes"
 	"fmt"
 	"io"
+	"os"
 	"runtime/debug"
 	"sync"
 	"syscall"
@@ -289,6 +290,9 @@ func subLongStream() mon.Sub {
 		// (2 GiB through the race-instrumented cipher take about 25 s: the quick tier carries the reader's stream, the
 		// thorough tier the writer's as well)
 		N: func(t string) int {
+			if os.Getenv("VERIF_PUREGO") != "" {
+				return 0 // (the pass against the purego build leaves the 2 GiB streams to the main pass)
+			}
 			if t == "thorough" {
 				return 2
 			}
